@@ -17,19 +17,12 @@ from the Go source). -/
 namespace Drv.C11
 open Conc
 
-inductive AOp
-  | mock (f : Nat) (r : Repl) (wo : Bool)
-  | chk
-  | reset
+abbrev AOp := BOp
 
 structure PThread where
   name : String
   ops : List AOp := []
   targets : List Nat := []    -- builders: own targets ascending; callers: targets to call
-
-def insertSorted (x : Nat) : List Nat → List Nat
-  | [] => [x]
-  | y :: ys => if x < y then x :: y :: ys else if x = y then y :: ys else y :: insertSorted x ys
 
 def splitBar (toks : List String) : List (List String) :=
   toks.foldr (fun t acc => if t = "|" then [] :: acc else match acc with
@@ -42,6 +35,7 @@ def parseRepl (k v : String) : Option Repl := do
   | "ret" => some (.ret n)
   | "cb" => some (.cb n)
   | "cbo" => some (.cbo n)
+  | "tab" => some (.tab n)
   | _ => none
 
 def NT : Nat := 48
@@ -77,7 +71,7 @@ def parseRound (toks : List String) : Option Round := do
     let kv ← hdr.mapM (fun s => match s.splitOn "=" with
       | [a, b] => b.toNat?.map (fun n => (a, n))
       | _ => none)
-    if !(kv.all (fun p => p.1 = "y" || p.1 = "K")) then none
+    if !(kv.all (fun p => p.1 = "y" || p.1 = "K" || p.1 = "d")) then none
     let k := ((kv.find? (·.1 = "K")).map (·.2)).getD 1
     let segs := segs.filter (fun s => s.head? != some "N")
     let ths ← segs.foldlM addSeg []
@@ -85,19 +79,12 @@ def parseRound (toks : List String) : Option Round := do
     some { k := k, threads := ths }
   | [] => none
 
-/-- builder API → critical sections (mocker.go:88-97 applyByFunc = proxy.Func → patch.Trampoline → replaceFunc, then
-    guard.Apply; builder.go:200-208 Reset → every mocker's Cancel → UnpatchWithLock) -/
-def compileB (th : PThread) : List Sec :=
-  let rec go (ops : List AOp) (mocked : List Nat) : List Sec :=
-    match ops with
-    | [] => []
-    | .mock f r wo :: rest => [.replace f r wo, .apply f] ++ go rest (insertSorted f mocked)
-    | .chk :: rest => th.targets.map (fun f => Sec.call f 3) ++ go rest mocked
-    | .reset :: rest => mocked.map Sec.unpatch ++ go rest mocked
-  go th.ops []
+/-- builder API → critical sections: `Conc.compileOps` (the class `Conc.builderProg` of theorem `C11.quiescent_restored_builders`
+    is this function applied to `ops ++ [reset, chk]`, which is how every generated builder program ends) -/
+def compileB (th : PThread) : List Sec := compileOps th.targets th.ops []
 
 def compileC (k : Nat) (ci : Nat) (th : PThread) : List Sec :=
-  (List.range k).flatMap (fun _ => th.targets.map (fun f => Sec.call f (ci + 1)))
+  (List.range k).flatMap (fun i => th.targets.map (fun f => Sec.call f ((ci + i) % 4 + 1)))
 
 def layout : Layout := { plh := fun f => f + 1000, pages := fun l => [l / 4], orig := fun f a => a * 7 + f }
 
@@ -137,7 +124,7 @@ def observe (sy : Sys) (s : St) : String :=
       some (name ++ "=[" ++ ",".intercalate (mine.map (fun c => showRes c.2.2)) ++ "]")
     else if name.startsWith "C" then
       let keys := mine.map (fun c => match (sy.prog t)[c.2.1]? with
-        | some (.call f _) => toString f ++ ":" ++ showRes c.2.2
+        | some (.call f a) => toString f ++ ":" ++ toString a ++ ">" ++ showRes c.2.2
         | _ => "?")
       let distinct := keys.foldl (fun acc k => if acc.contains k then acc else acc ++ [k]) []
       let items := distinct.map (fun k => k ++ "*" ++ toString (keys.count k))
